@@ -10,23 +10,9 @@ import (
 	"go/types"
 )
 
-type MapV struct {
-	Nil bool
-}
-
-type mapLV struct {
-	Base LV
-	Key  Value
-	Typ  *types.Map
-}
-
 type SymSliceV struct {
 	Len *Term
 }
-
-type HeapRefV struct{}
-
-type heapClass struct{}
 
 type AbstractIfaceV struct{}
 
@@ -58,23 +44,7 @@ type pendingLoc struct {
 	v Value
 }
 
-func (ex *Exec) mergeMaps(c *Term, x, y *MapV) Value {
-	unsupported("merge of maps")
-	return nil
-}
 
-func (ex *Exec) mapLoad(st *State, m *mapLV) Value { unsupported("map load"); return nil }
-func (ex *Exec) mapStore(st *State, m *mapLV, v Value) { unsupported("map store") }
-func (ex *Exec) mapGet(st *State, mv Value, k Value, t *types.Map) (Value, Value) {
-	unsupported("map index")
-	return nil, nil
-}
-func (ex *Exec) mapLit(st *State, e *ast.CompositeLit, t *types.Map) Value {
-	unsupported("map literal")
-	return nil
-}
-func (ex *Exec) makeMap(st *State, t *types.Map) Value { unsupported("make(map)"); return nil }
-func (ex *Exec) mapDelete(st *State, e *ast.CallExpr)  { unsupported("delete") }
 
 func (ex *Exec) execRangeSym(s *ast.RangeStmt, st *State, label string, sv *SymSliceV) *Flow {
 	unsupported("range over symbolic slice at %s", ex.pos(s.Pos()))
@@ -128,23 +98,6 @@ func (ex *Exec) stringToSlice(st *State, sv *StrV, t *types.Slice, p token.Pos) 
 }
 func (ex *Exec) strLen(s *StrV) *Term { unsupported("len of symbolic string"); return nil }
 
-func (ex *Exec) heapClassOf(t types.Type) *heapClass { return nil }
-func (ex *Exec) heapAlloc(st *State, hc *heapClass, v *StructV) Value {
-	unsupported("heap allocation")
-	return nil
-}
-func (ex *Exec) heapLoadAll(st *State, r *HeapRefV, p token.Pos) Value {
-	unsupported("heap load")
-	return nil
-}
-func (ex *Exec) heapFieldLV(st *State, r *HeapRefV, idx []int, p token.Pos) LV {
-	unsupported("heap store")
-	return LV{}
-}
-func (ex *Exec) heapHavocRef(st *State, hc *heapClass, prefix string) Value {
-	unsupported("heap havoc")
-	return nil
-}
 func (ex *Exec) callAbstractIface(r *AbstractIfaceV, f *FuncV, args []Value, st *State, site *ast.CallExpr) Value {
 	unsupported("abstract interface call")
 	return nil
